@@ -143,6 +143,13 @@ theorem fmod_nat (k : Int) (hk : 0 ≤ k) (a z : Nat) (haz : a < z) (m : Int) (h
   have h2 : (z : Int) - (a : Int) = ((z - a : Nat) : Int) := by omega
   rw [h2, h1, Int.toNat_natCast]; rfl
 
+/-- The same for the RAISING `%` the translator emits for a divisor that is not a non-zero literal (`Py.fmodE`:
+    ZeroDivisionError for 0): on this path the divisor is `end - start > 0`, so it returns normally. -/
+theorem fmodE_nat (k : Int) (hk : 0 ≤ k) (a z : Nat) (haz : a < z) (m : Int) (hm : m = (z : Int) - (a : Int)) :
+    Py.fmodE k m = .ok ((k.toNat % (z - a) : Nat) : Int) := by
+  unfold Py.fmodE
+  rw [if_neg (by omega), fmod_nat k hk a z haz m hm]
+
 /-- Normalise the guards of the goal, decide them from the arithmetic facts in the context, flatten the trace. -/
 macro "run_guards" : tactic => `(tactic| (
   try simp only [Bool.not_eq_true', Bool.not_eq_true, Bool.and_eq_true, Bool.or_eq_true, decide_eq_true_eq,
@@ -168,7 +175,8 @@ macro "rot_msb0_proof" l:ident k:ident hk:ident s:ident e:ident : tactic => `(ta
     · run_guards
       simp [rotMeaning]
     · have hfm := fmod_nat $k $hk a z (by omega)
-      simp (disch := omega) only [hfm]
+      have hfmE := fmodE_nat $k $hk a z (by omega)
+      simp (disch := omega) only [hfm, hfmE, Except.bind]
       have hr : ($k).toNat % (z - a) < z - a := Nat.mod_lt _ (by omega)
       generalize ($k).toNat % (z - a) = r at hr ⊢
       by_cases hr0 : r = 0
